@@ -721,6 +721,40 @@ static void bounds_sweep(vt::Rng& r, size_t n) {
   free(buf);
 }
 
+// small scope for the line / C-string readers: EVERY string of length 0..4 over {'a', CR, LF, NUL}, read from every cursor
+// position (advancing and peeking), through a reader over an exact-size heap block
+static void line_sweep(int shard, int nshards) {
+  static const char AL[] = {'a', '\r', '\n', '\0'};
+  int counter = 0;
+  for (int len = 0; len <= 4; len++) {
+    int total = 1;
+    for (int k = 0; k < len; k++) total *= 4;
+    for (int code = 0; code < total; code++) {
+      if ((counter++ % nshards) != shard) continue;
+      reset_event();
+      uint8_t* buf = (uint8_t*)malloc(len ? len : 1);
+      for (int k = 0, c = code; k < len; k++, c /= 4) buf[k] = (uint8_t)AL[c % 4];
+      StringReader rd(buf, len);
+      ev_rnew("data", buf, len);
+      for (int cur = 0; cur <= len; cur++) {
+        ev_go(rd, cur);
+        ev_line(rd, true);
+        ev_eof(rd);
+        ev_go(rd, cur);
+        ev_line(rd, false);
+        ev_go(rd, cur);
+        ev_cstr(rd, true);
+        ev_pcstr(rd, cur);
+      }
+      // the whole text read line by line
+      ev_go(rd, 0);
+      for (int k = 0; k <= len && !rd.eof(); k++) ev_line(rd, true);
+      ev_eof(rd);
+      free(buf);
+    }
+  }
+}
+
 static void cursor_history(vt::Rng& r) {
   reset_event();
   size_t n = r.chance(20) ? 0 : r.below(40);
@@ -849,6 +883,7 @@ int main(int argc, char** argv) {
     vector<size_t> sizes = quick ? vector<size_t>{0, 8} : vector<size_t>{0, 1, 2, 7, 8, 64};
     for (size_t i = 0; i < sizes.size(); i++)
       if ((int)(i % nshards) == shard) bounds_sweep(r, sizes[i]);
+    line_sweep(shard, nshards);
     int n = (quick ? 200 : 5000) / nshards + 1;
     for (int i = 0; i < n; i++) {
       cursor_history(r);
